@@ -38,3 +38,39 @@ M("c01-exit-first-empty", "C01", ("pyramid.py", """            pos = ready_queue
         callback(pos)"""))
 M("c01-prereadied-mirrored", "C01", ("pyramid.py", "                        pre_readied |= 1 << i", "                        pre_readied |= 1 << (3 - i)"))
 M("c01-serial-live-and", "C01", ("pyramid.py", "                    is_live = data[0] or data[1] or data[2] or data[3]\n\n                    if is_live:\n                        callback(pos)", "                    is_live = data[0] or data[1] or data[2] or data[3]\n\n                    if data[0] or data[3] or pos.n < self.depth - 1 and is_live:\n                        callback(pos)"))
+
+# ---- C03
+_LEAVES_TAIL = """                    ready_queue.put((pos, tile))
+                    progress.update(1)
+
+                riter.set_data(None)
+
+        # All done!
+
+        ready_queue.close()
+        ready_queue.join_thread()
+        done_event.set()
+"""
+M("c03-done-before-flush", "C03", ("pyramid.py", _LEAVES_TAIL, _LEAVES_TAIL.replace("""        ready_queue.close()
+        ready_queue.join_thread()
+        done_event.set()
+""", """        done_event.set()
+        ready_queue.close()
+        ready_queue.join_thread()
+""")))
+M("c03-no-join-thread", "C03", ("transform.py", "    queue.close()\n    queue.join_thread()\n    done_event.set()", "    queue.close()\n    done_event.set()"))
+M("c03-item-twice", "C03", ("pyramid.py", "                    ready_queue.put((pos, tile))\n", "                    ready_queue.put((pos, tile))\n                    if pos.x == 3 and pos.y == 1:\n                        ready_queue.put((pos, tile))\n"))
+M("c03-last-leaf-skipped", "C03", ("pyramid.py", """            for pos, tile, is_leaf, _data in riter:
+                if is_leaf:
+                    ready_queue.put((pos, tile))""", """            for pos, tile, is_leaf, _data in riter:
+                if is_leaf and (pos.x + 1 < 2**pos.n or pos.y + 1 < 2**pos.n or pos.n < 2):
+                    ready_queue.put((pos, tile))"""))
+M("c03-mtan-worker-exit-empty", "C03", ("multi_tan.py", """                image, desc = queue.get(True, timeout=1)
+        except Empty:
+            if done_event.is_set():
+                break
+            continue""", """                image, desc = queue.get(True, timeout=1)
+        except Empty:
+            break"""))
+M("c03-mwcs-no-join-workers", "C03", ("multi_wcs.py", "        done_event.set()\n\n        for w in workers:\n            w.join()", "        done_event.set()\n\n        for w in workers[1:]:\n            w.join()"))
+M("c03-leaf-wrong-tile", "C03", ("pyramid.py", "        callback(*args)", "        callback(args[0], args[1] if args[1] is None or args[0].x % 4 else args[1]._replace(increasing=not args[1].increasing))"))
